@@ -2,6 +2,7 @@ package main
 
 import (
 	"fmt"
+	"strings"
 	"os"
 	"runtime/debug"
 	"sort"
@@ -110,6 +111,13 @@ func (ex *Exec) runPath(entry *ssa.Function, item WorkItem) (res *PathResult) {
 				res.AbortMsg = e.msg
 				if ex.cur != nil && ex.cur.top != nil {
 					res.AbortMsg += " @ " + ex.where(ex.cur.top)
+					st := ex.stack(ex.cur)
+					if len(st) > 1 {
+						if len(st) > 7 {
+							st = st[:7]
+						}
+						res.AbortMsg += " <- " + strings.Join(st[1:], " <- ")
+					}
 				}
 			case pathPruned:
 				res.Status = "pruned"
